@@ -51,6 +51,10 @@ def run(ctx: Ctx, lines=LINES):
         jobs_rand.append((ctx.rng.randrange(1 << 30), 50, i % 3 != 2, "limited", lines))
     for i in range(6 if ctx.quick else 200):
         jobs_rand.append((ctx.rng.randrange(1 << 30), 50, i % 3 != 2, "forest", lines))
+    for i in range(2 if ctx.quick else 20):
+        jobs_rand.append((ctx.rng.randrange(1 << 30), 30, True, "twins", lines))
+    for i in range(1 if ctx.quick else 16):
+        jobs_rand.append((ctx.rng.randrange(1 << 30), 1 if ctx.quick else 2, i % 2 == 0, "big" if ctx.quick else "huge", lines))
     n_large = 160 if ctx.quick else 6000
     for i in range(n_large // 20):
         jobs_rand.append((ctx.rng.randrange(1 << 30), 20, i % 3 != 2, "large", lines))
